@@ -85,12 +85,11 @@ EV = dict(requires=["V.models.SnapSeq"], case_type="SnapSeq.case", mismatch="Sna
           monitor="SnapSeq.monitor_fail")
 
 DRIVER = dict(name="histories", kind="test", pkg="./overlord/snapstate", run="TestSnapManager",
-              gocheck="verifC10Suite.TestVerifC10Driver", n=dict(quick=20, thorough=400),
+              gocheck="verifC10Suite.TestVerifC10Driver", n=dict(quick=12, thorough=400),
               timeout=dict(quick=300, thorough=1800), ev=EV)
 
 SPEC = dict(
     prop="C10",
-    disabled="under construction",
     overlay_tags=["c10"],
     coq_targets=["props/C10.vo"],
     drivers=[DRIVER],
@@ -108,5 +107,10 @@ SPEC = dict(
         "the package's test fakes (fakeSnappyBackend, fakeStore, snapmgrBaseTest set-up): the system-visible side is what snapd ASKS the backend to do; real mounts and symlinks are not exercised",
         "failure injection = an error-trigger task spliced in place of the k-th task: the failing task has no partial effect",
     ],
-    assumptions=[],
+    assumptions=[
+        "GUARDED: the full statement is false in three recorded classes (KNOWN_FINDINGS fail-after-discard, revert-status-lost, config-from-nothing); the theorem excludes exactly these; what is restored after a completed discard is compared with the model on the real code but not stated as a theorem",
+        "the SnapSetup fields of a change (channel, flags, cohort, revert status) are read back from the change: how Install/Update/Revert derive them from user flags is not modelled",
+        "not modelled: aliases, services, security profiles, data directories, components, snap types other than app, partial effects of the failing task; cohort keys other than the empty one are not generated",
+        "`wf` (the invariant the theorem assumes of the state before the operation) is proved to be preserved only for the operations listed in props/C11.v",
+    ],
 )
